@@ -1291,6 +1291,53 @@ func decoderLoopConsumes(c *cx, id string, in func(f *eng.Fn) bool) int {
 					}
 				}
 				c.r.Check(id, f, "child start element consumed in the token loop of "+dec, "E-dec3: every child start element met by a hand-written token loop is decoded or skipped before the next token is read", g.Blocks[ce.E.B].Nodes[len(g.Blocks[ce.E.B].Nodes)-1].Pos(), bad == "", bad)
+				// E-dec6: a return that may be nil from within a child's arm has
+				// consumed the child AND the rest of the parent (two consuming calls):
+				// `return d.Skip()` in the arm of the last expected child skips only
+				// the child, the parent's end tag stays in the stream and the caller's
+				// DecodeElement fails with "did not consume entire element".
+				if id2 := strings.Replace(id, ".", ".", 1); bad == "" {
+					stopIter := func(q eng.Point, nd ast.Node) bool {
+						if consumes(q, nd) {
+							return true
+						}
+						hit := false
+						ast.Inspect(nd, func(x ast.Node) bool {
+							if x == ast.Node(tk) {
+								hit = true
+							}
+							return !hit
+						})
+						return hit
+					}
+					bad2 := ""
+					for _, rs := range g.Returns {
+						if g.RetKindOf(rs) == eng.RetError || c.p.Enclosing(rs.Pos()) != f {
+							continue
+						}
+						rp, _ := g.Where(rs)
+						if !g.Reachable(from, rp, nil, func(q eng.Point, nd ast.Node) bool { return !consumes(q, nd) && stopIter(q, nd) }) {
+							continue // not in this arm's iteration
+						}
+						if consumes(rp, rs) {
+							// the return itself consumes: one more must come before it
+							if g.Reachable(from, rp, nil, stopIter) {
+								bad2 = "the return at " + c.p.Pos(rs.Pos()) + " consumes the child only: the rest of the parent element, its end tag included, is left in the stream"
+							}
+							continue
+						}
+						for _, nd := range g.ReachableNodes(from, nil) {
+							np, okp := g.Where(nd)
+							if !okp || !consumes(np, nd) {
+								continue
+							}
+							if g.Reachable(from, np, nil, stopIter) && g.Reachable(g.After(np), rp, nil, stopIter) {
+								bad2 = "the return at " + c.p.Pos(rs.Pos()) + " follows the consumption of the child only: the rest of the parent element, its end tag included, is left in the stream"
+							}
+						}
+					}
+					c.r.Check(id2, f, "no early success return from a child's arm in the token loop of "+dec, "E-dec6: a return that may be nil inside the arm of a child start element has consumed the child and the rest of the parent", g.Blocks[ce.E.B].Nodes[len(g.Blocks[ce.E.B].Nodes)-1].Pos(), bad2 == "", bad2)
+				}
 			}
 		}
 	}
